@@ -6,6 +6,7 @@ the code by the correspondence harness tools/harness/c10.py).  Specification: `S
 (`Walk`, `IsDist`, `Unreachable`).  Helper lemmas: `SkNet/Lemmas/Path.lean`.  Core Lean only.
 -/
 import SkNet.Lemmas.Path
+import SkNet.Lemmas.Route
 
 namespace SkNet.C10
 open SkNet SkNet.Path
@@ -294,24 +295,113 @@ theorem getDistances_bipartite_exact (nRow nCol : Nat) (b : Nat → Nat → Bool
     apply Bool.eq_iff_iff.2
     rw [hm v hv]; simp
 
+/-- **route_spec**. The routing of `get_distances`, for every combination of `source`, `source_row`,
+`source_col`, `transpose`, `force_bipartite` and every shape: which refusal comes first, and otherwise which
+graph (plain or block, transposed or not) the loop runs on, with how many nodes, and exactly which nodes are
+sources (row node `i` at `i`, column node `j` at `n_row + j`, `n_row` of the matrix after transposition;
+`source` is an alias of `source_row` on bipartite input). -/
+theorem route_spec (nRow0 nCol0 : Nat) (a : DistArgs) :
+    (((routeSpec nRow0 nCol0 a).ValueError a) → routeDistances nRow0 nCol0 a = .error .valueError) ∧
+    (¬ (routeSpec nRow0 nCol0 a).ValueError a → (routeSpec nRow0 nCol0 a).IndexError →
+      routeDistances nRow0 nCol0 a = .error .indexError) ∧
+    (¬ (routeSpec nRow0 nCol0 a).ValueError a → ¬ (routeSpec nRow0 nCol0 a).IndexError →
+      ∃ m, routeDistances nRow0 nCol0 a =
+          .ok ⟨(routeSpec nRow0 nCol0 a).bipartite, (routeSpec nRow0 nCol0 a).nRow, (routeSpec nRow0 nCol0 a).nNodes, m⟩ ∧
+        m.length = (routeSpec nRow0 nCol0 a).nNodes ∧
+        ∀ v, v < (routeSpec nRow0 nCol0 a).nNodes → m.getD v false = (routeSpec nRow0 nCol0 a).isSource v) := by
+  generalize hs : routeSpec nRow0 nCol0 a = s
+  have hn := route_normal nRow0 nCol0 a
+  simp only [hs] at hn
+  have hve : ((s.bipartite && a.source.isSome && a.sourceRow.isSome) || (s.rowSrc.isNone && s.colSrc.isNone)) = true
+      ↔ s.ValueError a := by
+    simp [RouteSpec.ValueError, Option.isNone_iff_eq_none, and_assoc]
+  refine ⟨fun h => ?_, fun hnv hie => ?_, fun hnv hnie => ?_⟩
+  · rw [hn, if_pos (hve.2 h)]
+  · rw [hn, if_neg (fun h => hnv (hve.1 h))]
+    rcases hie with ⟨i, hi, hle⟩ | ⟨j, hj, hle⟩
+    · rw [setMask_error_iff.2 ⟨i, hi, hle⟩]; rfl
+    · cases h1 : setMask s.nNodes (tab s.nNodes fun _ => false) (s.rowSrc.getD []) with
+      | error e => rw [setMask_error_kind h1]; rfl
+      | ok m1 =>
+        simp only [Except.bind]
+        rw [setMask_error_iff.2 ⟨s.nRow + j, List.mem_map.2 ⟨j, hj, rfl⟩, hle⟩]
+  · rw [hn, if_neg (fun h => hnv (hve.1 h))]
+    have hrow : ∀ i ∈ s.rowSrc.getD [], i < s.nNodes := fun i hi =>
+      Nat.lt_of_not_le fun hle => hnie (Or.inl ⟨i, hi, hle⟩)
+    have hcol : ∀ i ∈ (s.colSrc.getD []).map (s.nRow + ·), i < s.nNodes := fun i hi => by
+      obtain ⟨j, hj, rfl⟩ := List.mem_map.1 hi
+      exact Nat.lt_of_not_le fun hle => hnie (Or.inr ⟨j, hj, hle⟩)
+    obtain ⟨m1, h1⟩ := setMask_ok_of (tab s.nNodes fun _ => false) hrow
+    obtain ⟨m2, h2⟩ := setMask_ok_of m1 hcol
+    refine ⟨m2, by rw [h1]; simp only [Except.bind]; rw [h2], (setMask_spec h2).2.1, fun v hv => ?_⟩
+    apply Bool.eq_iff_iff.2
+    rw [(setMask_spec h2).2.2 v hv, (setMask_spec h1).2.2 v hv]
+    simp only [tab_getD, hv, if_true, RouteSpec.isSource, List.mem_map, Bool.or_eq_true, Bool.and_eq_true,
+      List.contains_eq_mem, decide_eq_true_eq]
+    constructor
+    · rintro ((h | h) | ⟨j, hj, rfl⟩)
+      · exact absurd h (by decide)
+      · exact Or.inl h
+      · exact Or.inr ⟨by omega, by rwa [Nat.add_sub_cancel_left]⟩
+    · rintro (h | ⟨hle, h⟩)
+      · exact Or.inl (Or.inr h)
+      · exact Or.inr ⟨v - s.nRow, h, by omega⟩
+
+/-- **getDistances_exact**. `get_distances`, end to end, for *every* argument combination the routing accepts
+(plain or bipartite, transposed or not, `force_bipartite` set or implied, `source` alias, sources on one side
+or both): one vector on a plain graph, the split `[:n_row]`, `[n_row:]` on a bipartite one, of the exact hop
+distances in the routed graph from exactly the routed sources. -/
+theorem getDistances_exact (nRow0 nCol0 : Nat) (edge0 : Nat → Nat → Bool) (a : DistArgs)
+    (hv : ¬ (routeSpec nRow0 nCol0 a).ValueError a) (hi : ¬ (routeSpec nRow0 nCol0 a).IndexError) :
+    ∃ d, getDistances nRow0 nCol0 edge0 a =
+          .ok (some (if (routeSpec nRow0 nCol0 a).bipartite
+            then .pair (d.take (routeSpec nRow0 nCol0 a).nRow) (d.drop (routeSpec nRow0 nCol0 a).nRow) else .single d)) ∧
+      Exact (routeSpec nRow0 nCol0 a).nNodes
+        (let m := if a.transpose then (fun i j => edge0 j i) else edge0
+         if (routeSpec nRow0 nCol0 a).bipartite then blockEdge (routeSpec nRow0 nCol0 a).nRow m else m)
+        (routeSpec nRow0 nCol0 a).isSource d := by
+  obtain ⟨m, hroute, _, hm⟩ := (route_spec nRow0 nCol0 a).2.2 hv hi
+  generalize routeSpec nRow0 nCol0 a = s at *
+  obtain ⟨d, hd, hex, _⟩ := bfs_exact s.nNodes (routedEdge a ⟨s.bipartite, s.nRow, s.nNodes, m⟩ edge0) m
+  refine ⟨d, ?_, ?_⟩
+  · unfold getDistances
+    simp only [hroute, bind, Except.bind, hd]
+    split <;> rfl
+  · exact Exact.congr (src := fun v => m.getD v false) hm hex
+
+/-- Non-vacuity of `route_spec` / `getDistances_exact`: a 2×3 biadjacency, transposed (so 3 row nodes), `source` used as
+alias of `source_row` together with a column source, flag implied; and a square matrix with the flag set. -/
+example :
+    ¬ (routeSpec 2 3 { source := some [2], sourceCol := some [1], transpose := true }).ValueError
+        { source := some [2], sourceCol := some [1], transpose := true } ∧
+    ¬ (routeSpec 2 3 { source := some [2], sourceCol := some [1], transpose := true }).IndexError ∧
+    (routeDistances 2 3 { source := some [2], sourceCol := some [1], transpose := true }).toOption.map (·.mask)
+      = some [false, false, true, false, true] ∧
+    (routeSpec 2 2 { source := some [0], forceBipartite := true }).bipartite = true ∧
+    (routeSpec 2 2 { source := some [0] }).bipartite = false ∧
+    (routeSpec 2 2 { source := some [0], sourceRow := some [1] }).ValueError { source := some [0], sourceRow := some [1] } ∧
+    (routeSpec 2 2 { source := some [2] }).IndexError := by decide
+
 /-! ## get_dag -/
 
-/-- **getDag_exact**. `get_dag` keeps exactly the stored edges that go from a node of non-negative order
-to a node of strictly higher order — as a list, in storage order, whatever order `np.unique` enumerates
-the values in. -/
-theorem getDag_exact (es : List Entry) (order : List Int) (hrow : ∀ e ∈ es, e.row < order.length) :
-    pairsOf (getDagEntries es order) =
+/-- **getDag_loop_any_values**. The loop `for value in np.unique(order)` of `get_dag` keeps exactly the stored edges
+that go from a node of non-negative order to a node of strictly higher order — as a list, in storage order —
+whatever list of values it iterates over, in whatever order and with whatever repetitions, as long as the
+order of every stored row is among them (which is all that is assumed about `np.unique`). -/
+theorem getDag_loop_any_values (es : List Entry) (order values : List Int)
+    (hmem : ∀ e ∈ es, order.getD e.row 0 ∈ values) :
+    pairsOf ((dagLoop order values es).filter (·.keep)) =
       pairsOf (es.filter fun e => e.keep && decide (0 ≤ order.getD e.row 0) &&
                                    decide (order.getD e.row 0 < order.getD e.col 0)) := by
-  unfold getDagEntries pairsOf
+  unfold pairsOf
   rw [dagLoop_eq_map]
   induction es with
   | nil => simp
   | cons e es ih =>
-    have ih' := ih (fun x hx => hrow x (by simp [hx]))
-    obtain ⟨h1, h2, h3⟩ := loopE_spec order (unique order) e
-    have hk := killed_iff order e (hrow e (by simp))
-    have hcond : (loopE order (unique order) e).keep =
+    have ih' := ih (fun x hx => hmem x (by simp [hx]))
+    obtain ⟨h1, h2, h3⟩ := loopE_spec order values e
+    have hk := killed_iff_of_mem order values e (hmem e (by simp))
+    have hcond : (loopE order values e).keep =
         (e.keep && decide (0 ≤ order.getD e.row 0) && decide (order.getD e.row 0 < order.getD e.col 0)) := by
       apply Bool.eq_iff_iff.2
       rw [h3]
@@ -336,13 +426,25 @@ theorem getDag_exact (es : List Entry) (order : List Int) (hrow : ∀ e ∈ es, 
       rw [ih']
     · exact ih'
 
+/-- **getDag_exact**. `get_dag` (the model iterates over the distinct values of `order`) keeps exactly the stored
+edges that go from a node of non-negative order to a node of strictly higher order, as a list in storage
+order. `order` must cover every stored row and column index (the code raises `IndexError` otherwise; that
+branch is outside the model). -/
+theorem getDag_exact (es : List Entry) (order : List Int) (hrow : ∀ e ∈ es, e.row < order.length)
+    (_hcol : ∀ e ∈ es, e.col < order.length) :
+    pairsOf (getDagEntries es order) =
+      pairsOf (es.filter fun e => e.keep && decide (0 ≤ order.getD e.row 0) &&
+                                   decide (order.getD e.row 0 < order.getD e.col 0)) :=
+  getDag_loop_any_values es order (unique order) fun e he => mem_unique_row order e (hrow e he)
+
 /-- **getDag_exact**, read edge by edge on an `n × n` graph: `(i,j)` is an edge of the result iff it is an
 edge of the graph with `0 ≤ order i < order j`. -/
 theorem getDag_edge_iff (n : Nat) (edge : Nat → Nat → Bool) (order : List Int) (hlen : order.length = n)
     (i j : Nat) :
     (i, j) ∈ pairsOf (getDagEntries (entriesOf n edge) order) ↔
       i < n ∧ j < n ∧ edge i j = true ∧ 0 ≤ order.getD i 0 ∧ order.getD i 0 < order.getD j 0 := by
-  rw [getDag_exact _ _ (fun e he => by rw [hlen]; exact ((mem_entriesOf n edge e).1 he).1)]
+  rw [getDag_exact _ _ (fun e he => by rw [hlen]; exact ((mem_entriesOf n edge e).1 he).1)
+    (fun e he => by rw [hlen]; exact ((mem_entriesOf n edge e).1 he).2.1)]
   unfold pairsOf
   simp only [List.mem_map, List.mem_filter, Bool.and_eq_true, decide_eq_true_eq, Prod.mk.injEq]
   constructor
@@ -420,6 +522,84 @@ theorem getShortestPath_plain_exact (n : Nat) (edge : Nat → Nat → Bool) (s :
 
 example : (getShortestPath 3 3 (fun i j => j == (i+1) % 3) { source := some [0] }).toOption
     = some (some (3, [(0, 1), (1, 2)])) := by decide
+
+/-- **getShortestPath_exact**. `get_shortest_path`, end to end, for every argument combination the routing
+accepts (square or rectangular input, `force_bipartite` set or implied by `source_row` / `source_col`, `source`
+alias, sources on one side or both): the result has the nodes of the routed graph (`n` for a plain graph,
+`n_row + n_col` for a bipartite one) and its edges are exactly the edges `(i,j)` of the routed graph with `i`
+reachable from the routed sources and `dist j = dist i + 1`. -/
+theorem getShortestPath_exact (nRow0 nCol0 : Nat) (edge0 : Nat → Nat → Bool) (a : PathArgs)
+    (hv : ¬ (routeSpec nRow0 nCol0 a.toDist).ValueError a.toDist)
+    (hi : ¬ (routeSpec nRow0 nCol0 a.toDist).IndexError) :
+    ∃ ps, getShortestPath nRow0 nCol0 edge0 a = .ok (some ((routeSpec nRow0 nCol0 a.toDist).nNodes, ps)) ∧
+      ∀ i j, (i, j) ∈ ps ↔
+        i < (routeSpec nRow0 nCol0 a.toDist).nNodes ∧ j < (routeSpec nRow0 nCol0 a.toDist).nNodes ∧
+        (if (routeSpec nRow0 nCol0 a.toDist).bipartite then blockEdge nRow0 edge0 else edge0) i j = true ∧
+        ∃ d : Nat,
+          IsDist (routeSpec nRow0 nCol0 a.toDist).nNodes
+            (if (routeSpec nRow0 nCol0 a.toDist).bipartite then blockEdge nRow0 edge0 else edge0)
+            (routeSpec nRow0 nCol0 a.toDist).isSource i d ∧
+          IsDist (routeSpec nRow0 nCol0 a.toDist).nNodes
+            (if (routeSpec nRow0 nCol0 a.toDist).bipartite then blockEdge nRow0 edge0 else edge0)
+            (routeSpec nRow0 nCol0 a.toDist).isSource j (d+1) := by
+  obtain ⟨d, hd, hex⟩ := getDistances_exact nRow0 nCol0 edge0 a.toDist hv hi
+  have hrow : (routeSpec nRow0 nCol0 a.toDist).nRow = nRow0 := by simp [routeSpec, PathArgs.toDist]
+  have hnn : (routeSpec nRow0 nCol0 a.toDist).nNodes =
+      if (routeSpec nRow0 nCol0 a.toDist).bipartite then nRow0 + nCol0 else nRow0 := by
+    simp [routeSpec, PathArgs.toDist]
+  have hsq : (routeSpec nRow0 nCol0 a.toDist).bipartite = false → nRow0 = nCol0 := by
+    simp [routeSpec, PathArgs.toDist]
+  have htr : a.toDist.transpose = false := rfl
+  simp only [htr, hrow] at hex hd
+  generalize routeSpec nRow0 nCol0 a.toDist = s at *
+  have hda : (DistArgs.mk a.source a.sourceRow a.sourceCol false a.forceBipartite) = a.toDist := rfl
+  cases hb : s.bipartite
+  · simp only [hb, Bool.false_eq_true, ↓reduceIte] at hex hd hnn ⊢
+    refine ⟨pairsOf (getDagEntries (entriesOf nRow0 edge0) d), ?_, fun i j => ?_⟩
+    · unfold getShortestPath
+      rw [hda, hd]
+      simp only [bind, Except.bind, hnn]
+      simp [pure, Except.pure, hsq hb]
+    · rw [hnn] at hex ⊢
+      exact shortestPathDag_exact nRow0 edge0 _ d hex i j
+  · simp only [hb, Bool.false_eq_true, ↓reduceIte] at hex hd hnn ⊢
+    refine ⟨pairsOf (getDagEntries (entriesOf (nRow0 + nCol0) (blockEdge nRow0 edge0)) d), ?_, fun i j => ?_⟩
+    · unfold getShortestPath
+      rw [hda, hd]
+      simp only [bind, Except.bind, hnn, List.take_append_drop]
+      rfl
+    · rw [hnn] at hex ⊢
+      exact shortestPathDag_exact (nRow0 + nCol0) (blockEdge nRow0 edge0) _ d hex i j
+
+/-- Non-vacuity: a 2×2 biadjacency with only a column source (flag implied), and the same matrix as a plain graph. -/
+example :
+    (getShortestPath 2 2 (fun i j => i == j) { sourceCol := some [0] }).toOption = some (some (4, [(2, 0)])) ∧
+    (getShortestPath 2 2 (fun i j => i != j) { source := some [0] }).toOption = some (some (2, [(0, 1)])) := by decide
+
+/-- **get_dag with the default order** keeps exactly the edges `i → j` with `i < j`. -/
+theorem getDag_default_exact (n : Nat) (edge : Nat → Nat → Bool) :
+    ∃ ps, getDag n edge none none = .ok (some ps) ∧
+      ∀ i j, (i, j) ∈ ps ↔ i < n ∧ j < n ∧ edge i j = true ∧ i < j := by
+  refine ⟨_, rfl, fun i j => ?_⟩
+  rw [getDag_edge_iff n edge _ (by simp)]
+  constructor
+  · rintro ⟨hi, hj, he, _, hlt⟩
+    rw [tab_getD, tab_getD, if_pos hi, if_pos hj] at hlt
+    exact ⟨hi, hj, he, by omega⟩
+  · rintro ⟨hi, hj, he, hlt⟩
+    rw [tab_getD, tab_getD, if_pos hi, if_pos hj]
+    exact ⟨hi, hj, he, by omega, by omega⟩
+
+/-- **get_dag with a source set** is the shortest-path DAG of that source set. -/
+theorem getDag_source_exact (n : Nat) (edge : Nat → Nat → Bool) (s : List Nat) (hs : ∀ i ∈ s, i < n) :
+    ∃ ps, getDag n edge (some s) none = .ok (some ps) ∧
+      ∀ i j, (i, j) ∈ ps ↔ i < n ∧ j < n ∧ edge i j = true ∧
+        ∃ d : Nat, IsDist n edge (fun v => s.contains v) i d ∧ IsDist n edge (fun v => s.contains v) j (d+1) := by
+  obtain ⟨d, hd, hex⟩ := getDistances_plain_exact n edge s hs
+  refine ⟨pairsOf (getDagEntries (entriesOf n edge) d), ?_, fun i j => shortestPathDag_exact n edge _ d hex i j⟩
+  unfold getDag
+  simp only [hd, bind, Except.bind]
+  rfl
 
 /-! ## breadth_first_search -/
 
